@@ -63,7 +63,14 @@ func (f *Frame) pathConds(b *ssa.BasicBlock, depth int) []pathInfo {
 	return []pathInfo{{cond: "", blocks: chain, tail: b}}
 }
 
+type loopInfoUnroll struct {
+	unroll    int // >0: counted loop executed turn by turn (number of turns)
+	unrolling bool
+	backs     []edge
+}
+
 type loopInfo struct {
+	loopInfoUnroll
 	header   *ssa.BasicBlock
 	blocks   map[*ssa.BasicBlock]bool
 	ordinal  int
@@ -113,6 +120,8 @@ type Frame struct {
 	up      *Frame
 	upBlk   *ssa.BasicBlock
 	ordBase int
+	attrib  *ssa.BasicBlock
+	round   int // >0 while a turn of an unrolled loop is executed (names of reach constants)
 	loops  map[*ssa.BasicBlock]*loopInfo
 	rets   []retInfo
 	depth  int
@@ -281,6 +290,13 @@ func (f *Frame) findLoops() {
 			}
 		}
 		li.ordinal = best + 1
+		if best < 0 {
+			for _, cs := range countedLoops(fn.Syntax()) {
+				if lo != token.NoPos && cs.Pos() <= lo && hi <= cs.End() && f.unrollable(li) {
+					li.unroll = constTripCount(cs)
+				}
+			}
+		}
 		lfc := f.fc
 		if best >= 0 {
 			// loops of un-contracted callees that are inlined at call sites written before this loop come first
@@ -431,6 +447,9 @@ func (f *Frame) calleeModKeys(com *ssa.CallCommon) []string {
 // ---------- execution ----------
 
 func (f *Frame) rname(b *ssa.BasicBlock) string {
+	if f.round > 0 {
+		return fmt.Sprintf("r!%d!%d!u%d", f.id, b.Index, f.round)
+	}
 	return fmt.Sprintf("r!%d!%d", f.id, b.Index)
 }
 
@@ -467,10 +486,33 @@ func (f *Frame) run(st *State, reach string, args []Val, bindings []Val) {
 	}
 	f.findLoops()
 	order := f.rpo()
+	done := map[*ssa.BasicBlock]bool{}
 	for _, b := range order {
+		if done[b] {
+			continue
+		}
+		if li := f.loops[b]; li != nil && li.unroll > 0 {
+			f.unrollLoop(li, order, done, st, reach)
+			continue
+		}
+		f.stepBlock(b, st, reach, nil)
+	}
+}
+
+// stepBlock executes one block: merges the states of its incoming forward edges (hdr, when given, replaces them: the
+// state in which a turn of an unrolled loop starts), enters a loop cut at its header, runs the instructions.
+func (f *Frame) stepBlock(b *ssa.BasicBlock, st *State, reach string, hdr []edge) {
+	c := f.c
+	fn := f.fn
+	{
 		f.cur = b
 		if f.top {
 			c.curBlk = b
+			if f.attrib != nil {
+				// inside an unrolled loop: what a turn establishes is known after the loop as well, so its facts
+				// are attributed to the header (from which the exit is reached)
+				c.curBlk = f.attrib
+			}
 		}
 		var cur *State
 		var r string
@@ -479,23 +521,25 @@ func (f *Frame) run(st *State, reach string, args []Val, bindings []Val) {
 			r = reach
 		} else {
 			var ins []edge
-			var backs []edge
-			for _, p := range b.Preds {
-				for si, s := range p.Succs {
-					if s != b {
-						continue
-					}
-					if b.Dominates(p) && f.loops[b] != nil {
-						continue // back edge, handled when p finishes
-					}
-					if es, ok := f.out[p]; ok && si < len(es) && es[si].st != nil {
-						ins = append(ins, es[si])
+			if hdr != nil {
+				ins = hdr
+			} else {
+				for _, p := range b.Preds {
+					for si, s := range p.Succs {
+						if s != b {
+							continue
+						}
+						if b.Dominates(p) && f.loops[b] != nil {
+							continue // back edge, handled when p finishes
+						}
+						if es, ok := f.out[p]; ok && si < len(es) && es[si].st != nil {
+							ins = append(ins, es[si])
+						}
 					}
 				}
 			}
-			_ = backs
 			if len(ins) == 0 {
-				continue // unreachable
+				return // unreachable
 			}
 			r = c.declare(f.rname(b), "Bool")
 			var conds []string
@@ -511,23 +555,109 @@ func (f *Frame) run(st *State, reach string, args []Val, bindings []Val) {
 				f.inEdges = map[*ssa.BasicBlock][]edgeFrom{}
 			}
 			f.inEdges[b] = nil
-			for _, p := range b.Preds {
-				for si, s := range p.Succs {
-					if s != b || (b.Dominates(p) && f.loops[b] != nil) {
-						continue
-					}
-					if es, ok := f.out[p]; ok && si < len(es) && es[si].st != nil {
-						f.inEdges[b] = append(f.inEdges[b], edgeFrom{cond: es[si].cond, from: p})
+			if hdr == nil {
+				for _, p := range b.Preds {
+					for si, s := range p.Succs {
+						if s != b || (b.Dominates(p) && f.loops[b] != nil) {
+							continue
+						}
+						if es, ok := f.out[p]; ok && si < len(es) && es[si].st != nil {
+							f.inEdges[b] = append(f.inEdges[b], edgeFrom{cond: es[si].cond, from: p})
+						}
 					}
 				}
 			}
 			cur = f.merge(ins, b)
-			if li := f.loops[b]; li != nil {
+			if li := f.loops[b]; li != nil && li.unroll == 0 {
 				cur, r = f.enterLoop(li, cur, r)
 			}
 		}
 		f.reach[b] = r
 		f.execBlock(b, cur, r)
+	}
+}
+
+// unrollLoop executes a counted loop (constTripCount) turn by turn instead of cutting it at its header: every turn
+// starts in the merged state of the back edges of the turn before; the edges that leave the loop are collected over
+// the turns and merged; after the last turn a further back edge must be unreachable (obligation unroll-bound).
+func (f *Frame) unrollLoop(li *loopInfo, order []*ssa.BasicBlock, done map[*ssa.BasicBlock]bool, st *State, reach string) {
+	c := f.c
+	var blocks []*ssa.BasicBlock
+	for _, b := range order {
+		if li.blocks[b] {
+			blocks = append(blocks, b)
+			done[b] = true
+		}
+	}
+	type exitKey struct {
+		b  *ssa.BasicBlock
+		si int
+	}
+	exits := map[exitKey][]edge{}
+	var keys []exitKey
+	var hdr []edge
+	savedRound := f.round
+	savedAttrib := f.attrib
+	if f.attrib == nil {
+		f.attrib = li.header
+	}
+	defer func() { f.attrib = savedAttrib }()
+	for turn := 0; turn <= li.unroll; turn++ {
+		c.nunroll++
+		f.round = c.nunroll
+		li.unrolling = true
+		li.backs = nil
+		for _, b := range blocks {
+			if b == li.header && turn > 0 {
+				f.stepBlock(b, st, reach, hdr)
+			} else {
+				f.stepBlock(b, st, reach, nil)
+			}
+		}
+		li.unrolling = false
+		for _, b := range blocks {
+			for si, succ := range b.Succs {
+				if li.blocks[succ] {
+					continue
+				}
+				if es := f.out[b]; si < len(es) && es[si].st != nil {
+					k := exitKey{b, si}
+					if _, ok := exits[k]; !ok {
+						keys = append(keys, k)
+					}
+					exits[k] = append(exits[k], es[si])
+					f.out[b][si] = edge{}
+				}
+			}
+		}
+		if len(li.backs) == 0 {
+			break
+		}
+		if turn == li.unroll {
+			for _, be := range li.backs {
+				f.oblige(fmt.Sprintf("unroll-bound/counted-loop@%d", li.unroll), nil, be.cond, "false")
+			}
+			break
+		}
+		hdr = li.backs
+	}
+	f.round = savedRound
+	for _, k := range keys {
+		es := exits[k]
+		for len(f.out[k.b]) <= k.si {
+			f.out[k.b] = append(f.out[k.b], edge{})
+		}
+		if len(es) == 1 {
+			f.out[k.b][k.si] = es[0]
+			continue
+		}
+		var conds []string
+		for _, e := range es {
+			conds = append(conds, e.cond)
+		}
+		nr := c.fresh("ux", "Bool")
+		c.fact("(= " + nr + " (or " + strings.Join(conds, " ") + "))")
+		f.out[k.b][k.si] = edge{cond: nr, st: f.merge(es, nil)}
 	}
 }
 
@@ -1005,6 +1135,12 @@ func (f *Frame) finishEdge(b *ssa.BasicBlock, si int, cond string, st *State) {
 	succ := b.Succs[si]
 	for len(f.out[b]) <= si {
 		f.out[b] = append(f.out[b], edge{})
+	}
+	if succ.Dominates(b) && f.loops[succ] != nil && f.loops[succ].unroll > 0 {
+		if f.loops[succ].unrolling {
+			f.loops[succ].backs = append(f.loops[succ].backs, edge{cond: cond, st: st.clone()})
+		}
+		return
 	}
 	if succ.Dominates(b) && f.loops[succ] != nil {
 		// back edge. When the source is a pure join block, check the invariants on each incoming path
@@ -1646,4 +1782,32 @@ func balanced(t string) bool {
 		}
 	}
 	return d == 0
+}
+
+
+// unrollable: no SSA value defined inside the loop is used outside it (values of the last turn would otherwise stand
+// for those of every turn), and the loop contains no other loop.
+func (f *Frame) unrollable(li *loopInfo) bool {
+	for b := range li.blocks {
+		if b != li.header && f.loops[b] != nil {
+			return false
+		}
+		for _, ins := range b.Instrs {
+			v, ok := ins.(ssa.Value)
+			if !ok {
+				continue
+			}
+			if _, isAlloc := ins.(*ssa.Alloc); isAlloc {
+				continue
+			}
+			if refs := v.Referrers(); refs != nil {
+				for _, r := range *refs {
+					if rb := r.Block(); rb != nil && !li.blocks[rb] {
+						return false
+					}
+				}
+			}
+		}
+	}
+	return true
 }
